@@ -46,6 +46,15 @@ def features_for(spec, clause, detail, cand=None):
         for key in ("worker", "resource", "cumulative"):
             if detail.get(key):
                 f["resource_kind"] = "cumulative" if rs.cumulative_spec(spec, detail[key]) else "worker"
+        cid = detail.get("id")
+        if cid is not None and detail.get("kind"):
+            for c, _top in rs.all_constraints(spec):
+                if c.get("id") == cid and "resource" in c:
+                    f["resource_kind"] = "cumulative" if rs.cumulative_spec(spec, c["resource"]) else "worker"
+                    if "period" in c:
+                        f["activity_window"] = bool(c.get("start") or c.get("end") is not None)
+                        f["tasks_on_resource"] = min(2, sum(
+                            1 for r in spec.get("requirements", []) if r["resource"] == c["resource"]))
     return f
 
 
